@@ -11,8 +11,11 @@ import GV.Model.EraConsts
     blk <fixture> <T> <entry> <major|-> real block decoded as type T through an entry point
         entry: nbfc | nbfcskip | off | erafn  → `type=<Type()> era=<Era().Id> hera=<Header().Era().Id>`
                hdr                            → `hera=<Era().Id>`
-    ntn <fixture> <headerType> <byronType> <major|->   NtN route: header type → block type → header decoder
-                                        → `hera=<Era().Id> bt=<block type>`
+    wntn <fixture> <headerType> <byronType> <major|->  real chain-sync NtN client fed one wrapped header
+                                        → `hera=<Era().Id> bt=<block type given to the callback>`
+    wntc <fixture> <T> <major|->        real chain-sync NtC client fed one wrapped block
+    wbf  <fixture> <T> <major|->        real block-fetch client fed one wrapped block
+                                        → `type=<Type()> era=<Era().Id> hera=<Header().Era().Id> bt=<T given to the callback>`
     maps <k>                            → `h2b=<v|none> b2h=<v|none>`
   Decode failures (`err:decode`) are inputs to the model, not predictions: whether foreign
   bytes happen to parse as era T is not part of this property.
@@ -79,24 +82,40 @@ def handleOp (op impl : String) : Out :=
       if impl.startsWith "err:decode" ∧ ((eraOfType t).isSome ∨ entry = "off") then { model := impl, spec := s }
       else { model := m, spec := s }
     | none => badOp
-  | ["ntn", _, ht, byronType, _] =>
+  | ["wntn", _, ht, byronType, _] =>
     match parseNat? ht, parseNat? byronType with
     | some ht, some byronType =>
-      let bt := if ht = byronHeaderType then some byronType else lookup ht headerToBlock
+      -- protocol/chainsync/client.go handleRollForward (NtN): Byron takes the sub-type from the
+      -- wrapper (and accepts only the two Byron block types), everything else goes through the map
+      let bt : Except String Nat :=
+        if ht = byronHeaderType then
+          if byronType = byronEbbBlockType ∨ byronType = byronMainBlockType then .ok byronType
+          else .error "err:unknown-byron-type"
+        else match lookup ht headerToBlock with
+          | some b => .ok b
+          | none => .error "err:unknown-header-type"
+      -- the NtN header type is the era id: a header delivered to the callback must report it
+      let spec := s!"err:*||hera={ht} *"
       match bt with
-      | none => { model := "err:unknown-header-type", spec := "err:*" }
-      | some bt =>
+      | .error e => { model := e, spec := spec }
+      | .ok bt =>
         match eraOfType bt with
-        | none => { model := "err:unknown-type", spec := "err:*" }
+        | none => { model := "err:unknown-type", spec := spec }
         | some e =>
-          -- the NtN header type is the era id: a decoded header must report it
-          -- (a Byron wrapper whose sub-type is not a Byron block type is outside the
-          --  statement: the real client passes it on unchecked — reported, not demanded)
-          let spec := if ht = byronHeaderType ∧ bt ≠ byronEbbBlockType ∧ bt ≠ byronMainBlockType
-            then "*" else s!"err:*||hera={ht} *"
           if impl.startsWith "err:decode" then { model := impl, spec := spec }
           else { model := s!"hera={e} bt={bt}", spec := spec }
     | _, _ => badOp
+  | [kind, _, t, _] =>
+    if kind ≠ "wntc" ∧ kind ≠ "wbf" then badOp else
+    match parseNat? t with
+    | some t =>
+      match eraOfType t with
+      | some e =>
+        let s := s!"type={t} era={e} hera={e} bt={t}"
+        if impl.startsWith "err:decode" then { model := impl, spec := "err:*||" ++ s }
+        else { model := s, spec := "err:*||" ++ s }
+      | none => { model := "err:unknown-type", spec := "err:*" }
+    | none => badOp
   | ["maps", k] =>
     match parseNat? k with
     | some k => { model := s!"h2b={natOrNone (lookup k headerToBlock)} b2h={natOrNone (lookup k blockToHeader)}" }
